@@ -146,6 +146,15 @@ type PodSpec struct {
 	Role, Prio           int64
 	Preempt              bool
 	CPU, Mem, GPU        int64
+	Cond                 int64 // PodScheduled=False condition of an earlier failed bind: 0 none, k node n<k>, 9 pre-bind
+}
+
+// the messages taskUnschedulable writes for the scripted failures
+func BindFailMsg(node int64) string {
+	return fmt.Sprintf("failed to bind to node %s: %s", sched.NodeName(node), "scripted bind failure")
+}
+func PreBindFailMsg(pod int64) string {
+	return fmt.Sprintf("execute preBind for pod ns/%s failed: scripted pre-bind failure, resync the task", sched.TaskName(pod))
 }
 
 // PGSpec: Conds = number of status conditions the PodGroup already carries
@@ -279,6 +288,14 @@ func (p PodSpec) Object() *v1.Pod {
 	if p.Deleting {
 		now := metav1.Now()
 		pod.DeletionTimestamp = &now
+	}
+	if p.Cond != 0 {
+		msg := PreBindFailMsg(p.ID)
+		if p.Cond != 9 {
+			msg = BindFailMsg(p.Cond)
+		}
+		pod.Status.Conditions = []v1.PodCondition{{Type: v1.PodScheduled, Status: v1.ConditionFalse,
+			Reason: api.PodReasonSchedulerError, Message: msg}}
 	}
 	return pod
 }
@@ -486,14 +503,27 @@ func errCode(err error) int64 {
 }
 
 // Bind: AddBindTask, then the bind flow (pre-binders, Binder.Bind) inline.
-// fault: 1 bound; 0 Binder.Bind fails; 2 PreBind fails, status update succeeds;
-// 3 PreBind fails and the status update fails too.
+// fault: 1 bound; 0 Binder.Bind fails; 2 PreBind fails; 3 PreBind fails and the pod status
+// write fails too; 4 Binder.Bind fails and the status write fails too.  The status write is a
+// no-op (not even attempted) when the pod already carries the identical condition.
 func (c *Ctl) Bind(j, t, n int64, fault int64) int64 {
 	ti := c.cycleTask(j, t)
 	ti.NodeName = sched.NodeName(n)
-	c.Binder.Fail[t] = fault == 0
-	c.PreBinder.Fail[t] = fault >= 2
-	c.Status.FailPod = fault == 3
+	c.Binder.Fail[t] = fault == 0 || fault == 4
+	c.PreBinder.Fail[t] = fault == 2 || fault == 3
+	c.Status.FailPod = fault == 3 || fault == 4
+	wantMsg := BindFailMsg(n)
+	if fault == 2 || fault == 3 {
+		wantMsg = PreBindFailMsg(t)
+	}
+	noop := false // the pod already carries exactly the condition taskUnschedulable would write
+	if ti.Pod != nil {
+		for _, cd := range ti.Pod.Status.Conditions {
+			if cd.Type == v1.PodScheduled && cd.Status == v1.ConditionFalse && cd.Reason == api.PodReasonSchedulerError && cd.Message == wantMsg {
+				noop = true
+			}
+		}
+	}
 	pre, rb, up := c.PreBinder.PreBinds, c.PreBinder.RollBacks, c.Status.PodUpdates
 	err := c.SC.AddBindTask(&cache.BindContext{TaskInfo: ti})
 	if err == nil {
@@ -504,14 +534,18 @@ func (c *Ctl) Bind(j, t, n int64, fault int64) int64 {
 		if c.PreBinder.PreBinds != pre+1 {
 			panic("bind flow: the registered pre-binder was not run exactly once")
 		}
+		// (not asserted for fault 4: what matters for the cache there is the resync, which law 102 checks)
 		if fault == 0 && c.PreBinder.RollBacks != rb+1 {
 			panic("bind flow: a failed Binder.Bind did not roll the pre-binder back")
 		}
 		if fault == 1 && (c.PreBinder.RollBacks != rb || c.Status.PodUpdates != up) {
 			panic("bind flow: successful bind rolled back / reported unschedulable")
 		}
-		if fault != 1 && c.Status.PodUpdates != up+1 {
+		if fault != 1 && !noop && c.Status.PodUpdates != up+1 {
 			panic("bind flow: a failed (pre-)bind did not report the pod unschedulable")
+		}
+		if fault != 1 && noop && c.Status.PodUpdates != up {
+			panic("bind flow: the status write was expected to be a no-op")
 		}
 	}
 	c.Status.FailPod = false
